@@ -208,7 +208,11 @@ func start1(cfg Config, o StartOpts) (*Inst, bool, error) {
 		c, err := net.DialTimeout("tcp", in.Addr, 200*time.Millisecond)
 		if err == nil {
 			c.Close()
-			return in, autoPort, nil
+			// somebody listens on the port - make sure it is our child and not an instance of another test process
+			// that picked the same port (our child would then fail to bind a moment later)
+			if ownsListener(cmd.Process.Pid, port) {
+				return in, autoPort, nil
+			}
 		}
 		time.Sleep(2 * time.Millisecond)
 	}
@@ -362,4 +366,36 @@ func SelfSignedCert(dir string) (certFile, keyFile string, err error) {
 	os.WriteFile(certFile, pem.EncodeToMemory(&pem.Block{Type: "CERTIFICATE", Bytes: der}), 0o600)
 	os.WriteFile(keyFile, pem.EncodeToMemory(&pem.Block{Type: "EC PRIVATE KEY", Bytes: kb}), 0o600)
 	return certFile, keyFile, nil
+}
+
+// ownsListener reports whether process pid holds the listening socket of the given TCP port.
+func ownsListener(pid, port int) bool {
+	want := fmt.Sprintf(":%04X", port)
+	inodes := map[string]bool{}
+	for _, fn := range []string{"/proc/net/tcp6", "/proc/net/tcp"} {
+		b, err := os.ReadFile(fn)
+		if err != nil {
+			continue
+		}
+		for _, ln := range strings.Split(string(b), "\n") {
+			f := strings.Fields(ln)
+			if len(f) > 9 && strings.HasSuffix(f[1], want) && f[3] == "0A" {
+				inodes[f[9]] = true
+			}
+		}
+	}
+	if len(inodes) == 0 {
+		return false
+	}
+	fds, err := os.ReadDir(fmt.Sprintf("/proc/%d/fd", pid))
+	if err != nil {
+		return true // cannot tell: assume ours (as before)
+	}
+	for _, fd := range fds {
+		l, err := os.Readlink(fmt.Sprintf("/proc/%d/fd/%s", pid, fd.Name()))
+		if err == nil && strings.HasPrefix(l, "socket:[") && inodes[strings.TrimSuffix(strings.TrimPrefix(l, "socket:["), "]")] {
+			return true
+		}
+	}
+	return false
 }
